@@ -51,5 +51,6 @@ func runC11(r *Report) {
 	rulePanicNotParked(r)
 	ruleJoin(r)
 	ruleErrorIsLooksAtTarget(r)
+	ruleQueueFailureIsFinal(r, "queue-failure-is-final")
 	ruleTornRecordIsNotEOF(r)
 }
